@@ -400,16 +400,17 @@ func (r *runner) boundaries() {
 				}
 			}
 		}
-		if sz < 70000 {
-			sa := &packet.Suback{ID: 9}
-			for i := 0; i < sz-2 && i < 70000; i++ {
-				sa.ReturnCodes = append(sa.ReturnCodes, packet.QOS(i%3))
-			}
-			if len(sa.ReturnCodes) > 0 {
-				if b, ok := encode(sa); ok {
-					r.run("boundary", b, false)
-				}
-			}
+	}
+	// the model's loops are quadratic in the number of list elements (append, re-slicing from the
+	// start): lists stay below a few thousand elements
+	for _, k := range []int{123, 124, 125, 126, 127, 2500} {
+		sa := &packet.Suback{ID: 9}
+		for i := 0; i < k; i++ {
+			sa.ReturnCodes = append(sa.ReturnCodes, packet.QOS(i%3))
+		}
+		if b, ok := encode(sa); ok {
+			r.run("boundary", b, false)
+			r.run("boundary", b[:len(b)-1], false)
 		}
 	}
 }
